@@ -238,17 +238,20 @@ def scn_to_scenario(steps, sid, world, family, check=True):
     return {"id": sid, "world": world, "family": family, "steps": blocks + [{"op": "block"}]}
 
 
-def tlc_generate_raw(module, cfg, extra=(), timeout=1500):
-    """Runs a generation config and returns the distinct `SCN` step lists it printed (cached by spec hash)."""
-    key = sha(spec_hash(), module, cfg, " ".join(extra))
+def tlc_generate_raw(module, cfg, extra=(), timeout=1500, big=False):
+    """Runs a generation config and returns the distinct `SCN` step lists it printed (cached by spec hash).
+    big: amounts are decimal strings (real pip values) instead of small native integers."""
+    key = sha(spec_hash(), module, cfg, " ".join(extra), big)
     cache = os.path.join(WORK, "cache")
     os.makedirs(cache, exist_ok=True)
     path = os.path.join(cache, "raw-%s-%s.ndjson" % (module, key))
     if not os.path.exists(path):
         meta = os.path.join(WORK, "gen-%s-%d" % (module, os.getpid()))
-        cmd = tlc_cmd(SPEC, module, cfg, meta, os.path.join(SPEC, "lib/nat"), ["-workers", "1"] + list(extra))
+        cmd = tlc_cmd(SPEC, module, cfg, meta, os.path.join(SPEC, "lib/big" if big else "lib/nat"), ["-workers", "1"] + list(extra), big=big)
         rc, out = sh(cmd, timeout=timeout, cwd=SPEC)
         shutil.rmtree(meta, ignore_errors=True)
+        if "is violated" in out or "Error:" in out:
+            raise Inconclusive("MODEL-ERROR: TLC reports an error while generating from %s/%s:\n%s" % (module, cfg, out[-1500:]))
         seen = set()
         with open(path + ".tmp", "w") as f:
             for line in out.splitlines():
